@@ -436,6 +436,45 @@ SEEDS = {
         detected_by={"C17": "reported_state_is_normalised_N3_d2_chi2 (added): state handed to callbacks = (psi/norm) with dark atoms in |g>", "C13": "mps_fill_results_N3_d2_chi2", "C25": "mps_fill_results_N3_d2_chi2"},
         strengthened="C17 MISSED it at first (C13 and C25 caught it): the fill_results case is now part of C17 as well",
     ),
+    "C21c": dict(
+        property="C21",
+        change="_unique_observable_times converts the default times once after the loop and ASSIGNS instead of merging: explicit evaluation times of other observables are thrown away as soon as one observable uses the default",
+        needs="a configuration mixing observables with own times and with default times",
+        detected_by={"C21": "grid_evals2_idx1_mixed: evaluation time e0 is a grid time", "C14": "requested_times_on_grid_evals2_mixed"},
+    ),
+    "C27c": dict(
+        property="C27",
+        change="MPSBackend.resume promotes a sibling `.new` file over the advertised autosave before loading it",
+        needs="a crash inside the write of `.new` during a later autosave, then resume",
+        detected_by={"C27": "later_autosave_crash: crash during a later autosave: resume neither raises 'Not a file' nor loads a partial file"},
+    ),
+    "C29c": dict(
+        property="C29",
+        change="_extract_omega_delta_phi orders the drive columns by sorted(set(ids)) instead of register order",
+        needs="ids whose sorted order differs from register order (integer ids turned into strings by a serialisation round trip, > 10 atoms) and atom-dependent drives",
+        detected_by={"C29": "adapter_columns_follow_register_order (added): delta[k,a] = PCHIP(det samples)(midpoint)", "C22": "extract_T2_K2_atoms2 (ids now in non-sorted register order)"},
+        strengthened="MISSED at first by C29 and C22: every harness used ids whose register order is also their sorted order. C22's two-atom case now uses ids in non-sorted register order and is shared with C29",
+    ),
+    "C30c": dict(
+        property="C30",
+        change="forward keeps a private copy of its input state only when omega, delta or phi need a gradient (slice [1:4] instead of [1:5]): with only the interaction matrix requiring grad, backward gets the in-place normalised state again (the repaired defect returning for one flag combination)",
+        needs="an un-normalised input state and only the interaction matrix requiring a gradient",
+        detected_by={"C30": "forward_saves_input_state_n2: the state saved for the backward pass is the state the step started from (fork over needs_input_grad added)"},
+        strengthened="MISSED at first: the forward case set every needs_input_grad flag. It now forks over nine flag combinations",
+    ),
+    "C33c": dict(
+        property="C33",
+        change="the Krylov-tolerance floor caps the replacement factor at 1.0: for precision < 1e-12 the effective tolerance equals the precision, below the floor",
+        needs="precision strictly below 1e-12",
+        detected_by={"C33": "krylov_floor_and_autosave_dt: effective Krylov tolerance precision*extra' >= 1e-12"},
+    ),
+    "C34c": dict(
+        property="C34",
+        change="get_sequences skips every noise-trajectory group in which all atoms are badly prepared",
+        needs="SPAM noise with a sampled trajectory where every atom is bad (1-3 atoms or a high error rate)",
+        detected_by={"C34": "reps_expansion_samples1: number of SequenceData = sum of reps (all bad-atom patterns added)"},
+        strengthened="MISSED at first: the bad-atom masks in the repetition cases never made all atoms bad. Every pattern is now chosen by the explorer",
+    ),
     "C19c": dict(
         property="C19",
         change="get_next_abscissa drops the `|dx| >= 3/4 |a-b|` half of the bisection fallback: an interpolated step is no longer bounded by the current bracket",
